@@ -33,6 +33,26 @@ MUTANTS = [
      "            or self.state == OperationState.SUCCEEDED_CACHED\n", "            or self.state == OperationState.SUCCEEDED_CACHED\n            or self.state == OperationState.SKIPPED\n", ["C03"]),
     ("exec-stop-early-ignored-on-launch", "execution/executor.py",
      "                    if stop_on_first_error:\n                        return True\n", "                    if stop_on_first_error and False:\n                        return True\n", ["C03"]),
+    ("lib-revert-D3", "lib/path.py",
+     "    if len(os.environ[DEPS_ENV_VARIABLE_NAME]) == 0:\n", "    if False:\n", ["C07"]),
+    ("env-deps-reversed", "task_types/base.py",
+     "        for dep_identifier in self.deps:\n", "        for dep_identifier in reversed(self.deps):\n", ["C07"]),
+    ("env-options-before-args", "execution/ops/run_task_executable.py",
+     "            [run, self._args.serialize_cmdline(), self._options.serialize_cmdline()]", "            [run, self._options.serialize_cmdline(), self._args.serialize_cmdline()]", ["C07"]),
+    ("env-bool-capitalised", "utils/run_arguments.py",
+     '                args.append("true" if arg else "false")', '                args.append(str(arg))', ["C07"]),
+    ("env-cwd-root", "task_types/base.py",
+     "        return pathlib.Path(ctx.project_root, self._identifier.path)", "        return pathlib.Path(ctx.project_root)", ["C07"]),
+    ("abort-start-unbound", "execution/executor.py",
+     "        start = time.time()\n        try:\n            self._reset()\n", "        try:\n            self._reset()\n            start = time.time()\n", ["C16"]),
+    ("abort-process-unbound", "execution/ops/run_task_executable.py",
+     "        process = None\n        try:\n", "        try:\n", ["C16"]),
+    ("abort-unregistered-child", "execution/executor.py",
+     "                    if handle is not None:\n", "                    if handle is not None and False:\n", ["C16"]),
+    ("abort-no-terminate", "execution/executor.py",
+     "        except ConductorAbort:\n            self._inflight_ops.terminate_processes()\n", "        except ConductorAbort:\n", ["C16"]),
+    ("abort-kills-one", "execution/executor.py",
+     "        for handle, _ in self._processes.values():\n            try:\n", "        for handle, _ in list(self._processes.values())[:1]:\n            try:\n", ["C16"]),
     ("loader-no-cycle-check", "parsing/task_index.py",
      "                if identifier in curr_path:\n                    # The user's dependency graph contains a cycle\n                    raise CyclicDependency(\n                        task_identifier=task_identifier\n                    )",
      "                if identifier in curr_path and len(curr_path) > 2:\n                    # The user's dependency graph contains a cycle\n                    raise CyclicDependency(\n                        task_identifier=task_identifier\n                    )", ["C14"]),
